@@ -582,6 +582,24 @@ class Program:
                         and isinstance(f.value, ast.Name)
                         and f.value.id == sn
                     ):
+                        if f.attr == "register_parameter" and len(node.args) >= 2 and isinstance(node.args[0], ast.Constant) and isinstance(node.args[0].value, str):
+                            # self.register_parameter("name", nn.Parameter(t))
+                            pv = node.args[1]
+                            hops = 0
+                            while isinstance(pv, ast.Name) and pv.id in local_vals and hops < 3:
+                                pv = local_vals[pv.id]
+                                hops += 1
+                            ai = AttrInfo(node.args[0].value, PARAM, c, node=node, func=fi)
+                            inner = pv.args[0] if isinstance(pv, ast.Call) and pv.args and isinstance(pv.func, (ast.Attribute, ast.Name)) and (pv.func.attr if isinstance(pv.func, ast.Attribute) else pv.func.id) == "Parameter" else pv
+                            hops = 0
+                            while isinstance(inner, ast.Name) and inner.id in local_vals and hops < 3:
+                                inner = local_vals[inner.id]
+                                hops += 1
+                            ai.extra = inner
+                            ai.value = pv
+                            if node.args[0].value in out:
+                                ai.alts = [out[node.args[0].value]] + out[node.args[0].value].alts
+                            out[node.args[0].value] = ai
                         if f.attr == "register_buffer" and node.args:
                             nm = node.args[0]
                             if isinstance(nm, ast.Constant) and isinstance(nm.value, str):
